@@ -167,3 +167,31 @@ def _(vc):
     o1, o2 = Op(vc, "two_outputs", "embedding", K1, C, vs, "1"), Op(vc, "two_outputs", "embedding", K2, C, vs, "2")
     exc, _ = vc.raises(lambda: vc.call(f"{SF}:multiply", o1.circuit, o2.circuit, registry=make_registry(vc)))
     vc.ensure("refused", exc is not None)
+
+
+# C09: product layers that list their inputs in different scope orders.  multiply pairs the inputs positionally, so it must either
+# refuse (the documented NotImplementedError) or return a circuit that is still smooth and decomposable over the operands' scope
+# whose product layers pair inputs over the SAME variable; it must never return a product of inputs over different variables.
+for _kind in KINDS:
+    for _hk in ("HadamardLayer", "KroneckerLayer"):
+        def _h(vc, _kind=_kind, _hk=_hk):
+            K1, K2, C = vc.int("K1", lo=1), vc.int("K2", lo=1), vc.int("C", lo=2)
+            v0, v1 = vc.int("v0", lo=0), vc.int("v1", lo=0)
+            distinct(vc, [v0, v1])
+            ops = []
+            for K, vs, tag in ((K1, [v0, v1], "1"), (K2, [v1, v0], "2")):
+                a, b = (input_layer(vc, _kind, vc.new(f"{SC}:Scope", [v]), K, C) for v in vs)
+                h = vc.new(f"{SL}:{_hk}", K, arity=2)
+                ops.append(vc.new(f"{SCI}:Circuit", [a, b, h], {h: [a, b]}, [h]))
+            exc, res = vc.raises(lambda: vc.call(f"{SF}:multiply", ops[0], ops[1], registry=make_registry(vc)))
+            if exc is not None:
+                vc.ensure("refused_with_a_documented_error", exc in ("NotImplementedError", "StructuralPropertyError", "ValueError"))
+                return
+            vc.ensure("returned_circuit_is_smooth", to_z3(vc.I.truth(vc.attr(res, "is_smooth"))))
+            vc.ensure("returned_circuit_is_decomposable", to_z3(vc.I.truth(vc.attr(res, "is_decomposable"))))
+            vc.ensure("returned_circuit_has_the_operands_scope", scope_arr(res.fields["scope"]) == scope_arr(ops[0].fields["scope"]))
+            for l in res.fields["_nodes"]:
+                if S.cls_is(vc, l, "InputLayer"):
+                    vc.ensure("every_input_layer_is_over_one_variable", vc.attr(vc.attr(l, "scope"), "__len__") is not None and
+                              vc.must(to_z3(vc.call((vc.attr(l, "scope"), "__len__"))) == 1))
+        obligation(f"C09.multiply.permuted_product_inputs.{_hk}.{_kind}", "C09", [f"{SF}:multiply", f"{SCI}:are_compatible"])(_h)
